@@ -10,7 +10,7 @@ static std::string law_json(const LawParams& p) { return "{\"growth_rate\":" + j
 static const double SCALES[4] = {1.0, 1.1, 0.9, 0.5};
 
 static std::string* g_trace = nullptr;   // observable outcome of the current history (for the measured count of distinct cases)
-static std::string run_law(int type_gid, const LawParams& lp, const std::vector<int>& hist, long* steps = nullptr) {
+static std::string run_law(int type_gid, const LawParams& lp, const std::vector<int>& hist, long* steps = nullptr, int prep = 0 /* 1: the cell first goes through a real edge collapse and carries free node and face slots */) {
     auto ty = sc::make_cell_type((short)type_gid, 3); sc::Mesh m = sc::icosphere(1); char buf[400];
     cell_ptr probe = sc::make_cell(m, 0, ty, true); const double V0 = probe->get_volume(); probe->clear_data();
     ty->avg_growth_rate_ = lp.growth; ty->std_growth_rate_ = 0; ty->min_vol_ = lp.min_vol_factor * V0; ty->bulk_modulus_ = lp.K; ty->max_pressure_ = lp.pmax; ty->avg_division_vol_ = lp.div_factor * V0; ty->std_division_vol_ = 0; ty->initial_pressure_ = lp.p0;
@@ -23,6 +23,7 @@ static std::string run_law(int type_gid, const LawParams& lp, const std::vector<
         { sc::Geom g = sc::geom_of(c); double expect = (double)g.vol * std::exp(lp.p0 / lp.K); if (std::fabs(c.get_target_volume() - expect) > 1e-9 * expect) { snprintf(buf, sizeof buf, "initial-target-volume-is-not-V-exp(P0/K): %.17g expected %.17g", c.get_target_volume(), expect); return buf; } }
         if (c.get_growth_rate() != lp.growth) { snprintf(buf, sizeof buf, "growth-rate-differs-from-mean-with-zero-sigma: %.17g vs %.17g", c.get_growth_rate(), lp.growth); return buf; }
         if (!(c.get_division_volume() == lp.div_factor * V0)) { snprintf(buf, sizeof buf, "division-volume-differs-from-mean-with-zero-sigma: %.17g vs %.17g", c.get_division_volume(), lp.div_factor * V0); return buf; }
+        if (prep) { local_mesh_refiner lmr(1e-3, 1e3, true); cell_ptr cp = W.cells()[0]; for (const edge& e0 : cp->get_edge_set()) { edge e = e0; bool can = false; try { can = lmr.can_be_merged(e, cp); } catch (...) {} if (!can) continue; edge_set es = cp->get_edge_set(); try { lmr.merge_edge(e, cp, es); } catch (...) {} break; } if (c.get_nb_of_faces() == c.face_lst_.size()) return "INTERNAL the preparatory edge collapse left no free slot"; }
         double target = c.get_target_volume();
         for (size_t i = 0; i < hist.size(); i++) { sw::scale_cell(c, SCALES[hist[i]]); const double before_target = c.get_target_volume();
             c.apply_internal_forces(dt); if (steps) (*steps)++;
@@ -36,6 +37,11 @@ static std::string run_law(int type_gid, const LawParams& lp, const std::vector<
             bool ready = c.is_ready_to_divide(), expect_ready = (type_gid == 0) && (V >= lp.div_factor * V0);
             if (std::fabs(V - lp.div_factor * V0) > 1e-9 * V && ready != expect_ready) { snprintf(buf, sizeof buf, "division-trigger: step %zu is_ready_to_divide=%d but V=%.9g division volume=%.9g cell type %d", i, (int)ready, V, lp.div_factor * V0, type_gid); return buf; }
             if (g_trace) { snprintf(buf, sizeof buf, "%.9g %.9g %d %d;", c.get_target_volume(), c.get_pressure(), (int)ready, (int)c.is_below_min_vol()); *g_trace += buf; }
+            if (i + 1 == hist.size() && type_gid != 1) { // the thresholds themselves: 'has reached' its division volume = at equality; 'falls below' the minimum = not at equality
+                const double keep_div = c.division_volume_; auto own = std::make_shared<cell_type_parameters>(*c.cell_type_); auto keep_type = c.cell_type_; c.division_volume_ = c.get_volume(); own->min_vol_ = c.get_volume(); c.cell_type_ = own;
+                if (type_gid == 0 && !c.is_ready_to_divide()) return "division-trigger: a cell whose volume equals its division volume is not eligible"; if (type_gid != 0 && c.is_ready_to_divide()) return "division-trigger: a non-epithelial cell is eligible"; if (c.is_below_min_vol()) return "below-minimum-volume-flag: a cell whose volume equals the minimum volume is flagged for removal";
+                c.division_volume_ = std::nextafter(c.get_volume(), 1e300); if (c.is_ready_to_divide()) return "division-trigger: eligible one ulp below the division volume"; own->min_vol_ = std::nextafter(c.get_volume(), 1e300); if (!c.is_below_min_vol()) return "below-minimum-volume-flag: not flagged one ulp below the minimum volume";
+                c.division_volume_ = keep_div; c.cell_type_ = keep_type; }
             bool below = c.is_below_min_vol(); if (std::fabs(V - ty->min_vol_) > 1e-9 * V && below != (V < ty->min_vol_)) { snprintf(buf, sizeof buf, "below-minimum-volume-flag: step %zu flag=%d V=%.9g Vmin=%.9g", i, (int)below, V, ty->min_vol_); return buf; }
         }
     } catch (std::exception& e) { err = std::string("exception: ") + e.what(); }
@@ -94,10 +100,11 @@ static void explore(Result& R) {
     for (int ty = 0; ty < 5; ty++) for (auto& lp : menu) { long nh = 1; for (int d = 0; d < depth; d++) nh *= 4;
         for (long code = 0; code < nh; code++) { if (R.out_of_time(0.5)) { R.cap("deadline in the cell-cycle law block"); goto removal; } std::vector<int> h; long c = code; for (int d = 0; d < depth; d++) { h.push_back(c % 4); c /= 4; }
             { std::string hs; for (int x : h) hs += char('0' + x); progress("mode=law\ntype=" + std::to_string(ty) + "\nparams=" + dhex(lp.growth) + " " + dhex(lp.min_vol_factor) + " " + dhex(lp.K) + " " + dhex(lp.pmax) + " " + dhex(lp.div_factor) + " " + dhex(lp.p0) + "\nhist=" + hs + "\n"); }
-            std::string tr; g_trace = &tr; std::string e = run_law(ty, lp, h, &law_steps); g_trace = nullptr; law_hist++; if (!tr.empty()) R.distinct_case("law " + std::to_string(ty) + " " + tr);
+            for (int prep = 0; prep < 2; prep++) { if (prep && ((law_hist + ty) % (th ? 2 : 5))) continue;   /* every second (quick: fifth) history also on a cell that carries free slots */
+            std::string tr; g_trace = &tr; std::string e = run_law(ty, lp, h, &law_steps, prep); g_trace = nullptr; if (!prep) law_hist++; else R["law_histories_on_a_cell_with_free_slots"]++; if (e.rfind("INTERNAL", 0) == 0) { R.internal_error = e; return; } if (!tr.empty()) R.distinct_case("law " + std::to_string(ty) + " " + std::to_string(prep) + " " + tr);
             if (e.rfind("exception", 0) == 0) { R["law_histories_ended_by_exception"]++; continue; }
-            if (!e.empty()) { std::string hs; for (int x : h) hs += char('0' + x); R.violation(clause_of(e) + "|type=" + std::to_string(ty), "cell type " + std::to_string(ty) + ", parameters " + law_json(lp) + ", scaling history " + hs + ": " + e, "mode=law\ntype=" + std::to_string(ty) + "\nparams=" + dhex(lp.growth) + " " + dhex(lp.min_vol_factor) + " " + dhex(lp.K) + " " + dhex(lp.pmax) + " " + dhex(lp.div_factor) + " " + dhex(lp.p0) + "\nhist=" + hs + "\n"); }
-            if (law_hist % 20000 == 1) R.sample("{\"block\":\"law\",\"cell_type\":" + std::to_string(ty) + ",\"params\":" + law_json(lp) + ",\"scalings\":\"" + [&] { std::string s; for (int x : h) s += char('0' + x); return s; }() + "\"}"); } }
+            if (!e.empty()) { std::string hs; for (int x : h) hs += char('0' + x); R.violation(clause_of(e) + "|type=" + std::to_string(ty), "cell type " + std::to_string(ty) + ", parameters " + law_json(lp) + ", scaling history " + hs + ": " + e, "mode=law\ntype=" + std::to_string(ty) + "\nparams=" + dhex(lp.growth) + " " + dhex(lp.min_vol_factor) + " " + dhex(lp.K) + " " + dhex(lp.pmax) + " " + dhex(lp.div_factor) + " " + dhex(lp.p0) + "\nhist=" + hs + "\nprep=" + std::to_string(prep) + "\n"); }
+            if (law_hist % 20000 == 1) R.sample("{\"block\":\"law\",\"cell_type\":" + std::to_string(ty) + ",\"params\":" + law_json(lp) + ",\"scalings\":\"" + [&] { std::string s; for (int x : h) s += char('0' + x); return s; }() + "\"}"); } } }
 removal:
     R["law_histories"] = law_hist; R["law_steps"] = law_steps;
     // (b) clamp: complete seed range through the H2 seam
@@ -125,13 +132,13 @@ removal:
       R["removal_histories"] = hist; R["cells_removed"] = removed; if (!removed) R.internal_error = "no cell was ever removed (vacuous)"; }
     sw::cleanup_scratch();
     R["states"] = R["law_histories"] + R["removal_histories"] + R["clamp_seeds"]; R["transitions"] = R["law_steps"] + R["removal_histories"] + R["clamp_seeds"]; R["evaluations"] = R["transitions"]; R["distinct_nontrivial"] = R["states"]; R["traces_validated_against_impl"] = R["law_histories"] + R["removal_histories"];
-    R.strings["rule"] = "distinct_nontrivial = number of DISTINCT observable outcomes (hashed): per law history the sequence of (target volume, pressure, ready, below-minimum) it produced, per seed the drawn (growth rate, division volume), per removal history the surviving population; law block: every cell type x parameter menu x every scaling history of the stated depth over {keep, x1.1, x0.9, x0.5}, apply_internal_forces after each scaling, compared step by step with the reference law (volume from an independent long double computation); clamp block: every seed 1..N handed to the real generators through the H2 seam; removal block: every assignment of {keep, shrink below minimum volume} to every cell over 3 real solver iterations, the survivors and their order compared with the volumes measured at the H6 'remove' boundary";
+    R.strings["rule"] = "distinct_nontrivial = number of DISTINCT observable outcomes (hashed): per law history the sequence of (target volume, pressure, ready, below-minimum) it produced, per seed the drawn (growth rate, division volume), per removal history the surviving population; law block: every cell type x parameter menu x every scaling history of the stated depth over {keep, x1.1, x0.9, x0.5} (every fifth / second of them also on a cell that first went through a real edge collapse and carries free slots), apply_internal_forces after each scaling, the two thresholds probed at equality and one ulp off after the last step, compared step by step with the reference law (volume from an independent long double computation); clamp block: every seed 1..N handed to the real generators through the H2 seam; removal block: every assignment of {keep, shrink below minimum volume} to every cell over 3 real solver iterations, the survivors and their order compared with the volumes measured at the H6 'remove' boundary";
     R.assumptions = {"ECM cells are not subject to internal forces (ecm_cell overrides apply_internal_forces): only 'nothing changes' is checked for them; static cells are (they are only excluded from the position update)", "tolerances: target volume 1e-12, pressure and volume 1e-9 relative; decisions within 1e-9 of a threshold are not judged"};
 }
 
 static int replay(const Replay& rp, Result& R) {
     std::string mode = rp.get("mode"), e1, e2;
-    if (mode == "law") { LawParams lp; std::istringstream i(rp.get("params")); std::string t[6]; for (auto& x : t) i >> x; lp = {strtod(t[0].c_str(), 0), strtod(t[1].c_str(), 0), strtod(t[2].c_str(), 0), strtod(t[3].c_str(), 0), strtod(t[4].c_str(), 0), strtod(t[5].c_str(), 0)}; std::vector<int> h; for (char ch : rp.get("hist")) h.push_back(ch - '0'); e1 = run_law((int)rp.geti("type"), lp, h); e2 = run_law((int)rp.geti("type"), lp, h); }
+    if (mode == "law") { LawParams lp; std::istringstream i(rp.get("params")); std::string t[6]; for (auto& x : t) i >> x; lp = {strtod(t[0].c_str(), 0), strtod(t[1].c_str(), 0), strtod(t[2].c_str(), 0), strtod(t[3].c_str(), 0), strtod(t[4].c_str(), 0), strtod(t[5].c_str(), 0)}; std::vector<int> h; for (char ch : rp.get("hist")) h.push_back(ch - '0'); e1 = run_law((int)rp.geti("type"), lp, h, nullptr, (int)rp.geti("prep", 0)); e2 = run_law((int)rp.geti("type"), lp, h, nullptr, (int)rp.geti("prep", 0)); }
     else if (mode == "removal") { History h = hist_parse(rp.get("hist")); e1 = run_removal((int)rp.geti("n"), h); e2 = run_removal((int)rp.geti("n"), h); }
     else { const ClampParams& cp = CLAMP_MENU.at((size_t)rp.geti("menu")); auto ty = sc::make_cell_type(0, 3); ty->avg_growth_rate_ = cp.ag; ty->std_growth_rate_ = cp.sg; ty->avg_division_vol_ = cp.ad; ty->std_division_vol_ = cp.sd; cell_ptr c = sc::make_cell(sc::octahedron(), 0, ty, true); g_force = true; g_forced_seed = rp.geti("seed"); c->initialize_random_properties(); printf("growth %.17g division volume %.17g\n", c->get_growth_rate(), c->get_division_volume());
         const double glo = cp.ag - 3 * cp.sg, ghi = cp.ag + 3 * cp.sg, dlo = cp.ad - 3 * cp.sd, dhi = cp.ad + 3 * cp.sd, tg = 1e-12 * std::max(std::fabs(glo), std::fabs(ghi)), td = 1e-12 * std::max(std::fabs(dlo), std::fabs(dhi));
